@@ -311,9 +311,28 @@ def annotate_fn(unit, src, it, fnq, a: A, em: Emitter, canary=None):
     if a.body_end:
         em.insert_before_tok(body_hi, '\n' + a.body_end + '\n')
     # ---- loops ----
-    if a.loops:
-        loops = rscan.find_loops(toks, br, body_lo, body_hi)
-        for kidx, spec in a.loops.items():
+    loops = rscan.find_loops(toks, br, body_lo, body_hi)
+    handled = set()
+    loop_specs = list((a.loops or {}).items())
+    # R9 also for `for` loops that carry no annotation: found after the annotated ones have been placed
+    loop_specs.append(('__auto__', None))
+    if loop_specs:
+        for kidx, spec in loop_specs:
+            if kidx == '__auto__':
+                for n_auto, (kw_a, lb_a) in enumerate(loops):
+                    if kw_a in handled or toks[kw_a].text != 'for' or (kw_a >= 2 and toks[kw_a - 1].text == ':' and toks[kw_a - 2].kind == 'lt'):
+                        continue
+                    if any(s0 <= src.toks[kw_a].s < e0 for (s0, e0, _n) in em.repl) or any(s0 <= src.toks[kw_a].s < e0 for (s0, e0) in em.dele):
+                        continue          # inside a dropped arm / closure
+                    conts = _own_continues(toks, br, lb_a)
+                    if not conts:
+                        continue
+                    G = f'vit_auto{n_auto}'
+                    if _r9_rewrite(unit, src, fnq, toks, br, kw_a, lb_a, conts, G, em) is None:
+                        continue
+                    em.insert_before_tok(lb_a, f'\n    invariant {G}.at({G}_cur),\n    ensures {G}.index@ == {G}.seq().len(),\n    decreases {G}.seq().len() - {G}.index@\n')
+                    em.insert_before_tok(br[lb_a], f'\n{G}_cur = {G}.advance();\n')
+                continue
             if spec.get('header'):
                 # addressed by its header text (`for m in xs.iter()`): robust against loops added / removed before it; when no loop has that
                 # header the annotation is simply not emitted (the function is then checked against its contract without the invariant)
@@ -327,7 +346,13 @@ def annotate_fn(unit, src, it, fnq, a: A, em: Emitter, canary=None):
                 if kidx >= len(loops):
                     raise LostAnchor(f'{fnq}: loop #{kidx} not found ({len(loops)} loops)')
                 kw_i, lb = loops[kidx]
-            if spec.get('ghost'):
+            handled.add(kw_i)
+            r9 = None
+            if toks[kw_i].text == 'for' and not (kw_i >= 2 and toks[kw_i - 1].text == ':' and toks[kw_i - 2].kind == 'lt'):
+                conts = _own_continues(toks, br, lb)
+                if conts:
+                    r9 = _r9_rewrite(unit, src, fnq, toks, br, kw_i, lb, conts, spec.get('ghost') or f'vit{kidx}', em)
+            if spec.get('ghost') and r9 is None:
                 if toks[kw_i].text != 'for':
                     raise LostAnchor(f'{fnq}: loop #{kidx} is not a for loop')
                 x = kw_i + 1
@@ -339,6 +364,13 @@ def annotate_fn(unit, src, it, fnq, a: A, em: Emitter, canary=None):
                     raise LostAnchor(f'{fnq}: loop #{kidx}: no `in`')
                 em.insert_after_tok(x, f' {spec["ghost"]}: ')
             inv = norm_clauses(spec.get('invariant'))
+            loop_ens = list(spec.get('ensures') or [])
+            decr = spec.get('decreases')
+            if r9:
+                G = r9
+                inv = norm_clauses([('the_explicit_iterator_is_at_its_current_element', f'{G}.at({G}_cur)')]) + inv
+                loop_ens = [('the_explicit_iterator_is_exhausted', f'{G}.index@ == {G}.seq().len()')] + loop_ens
+                decr = decr or f'{G}.seq().len() - {G}.index@'
             if spec.get('raw'):
                 em.insert_before_tok(lb, '\n' + spec['raw'] + '\n')
             if spec.get('invariant_except_break'):
@@ -353,14 +385,14 @@ def annotate_fn(unit, src, it, fnq, a: A, em: Emitter, canary=None):
                     em.insert_before_tok(lb, '        ')
                     em.insert_before_tok(lb, Clause(fnq, f'invariant[{kidx}]', n, t, pp))
                     em.insert_before_tok(lb, ',\n')
-            if spec.get('ensures'):
+            if loop_ens:
                 em.insert_before_tok(lb, '\n    ensures\n')
-                for n, t, pp in norm_clauses(spec['ensures']):
+                for n, t, pp in norm_clauses(loop_ens):
                     em.insert_before_tok(lb, '        ')
                     em.insert_before_tok(lb, Clause(fnq, f'loop-ensures[{kidx}]', n, t, pp))
                     em.insert_before_tok(lb, ',\n')
-            if spec.get('decreases'):
-                em.insert_before_tok(lb, f'\n    decreases {spec["decreases"]}\n')
+            if decr:
+                em.insert_before_tok(lb, f'\n    decreases {decr}\n')
             if canary == 'loops':
                 c = Clause(fnq, 'canary', f'loop{kidx}', 'assert(false)')
                 em.insert_after_tok(lb, ' proof { ')
@@ -370,6 +402,8 @@ def annotate_fn(unit, src, it, fnq, a: A, em: Emitter, canary=None):
                 em.insert_after_tok(lb, '\n' + spec['pre'] + '\n')
             if spec.get('post'):
                 em.insert_before_tok(br[lb], '\n' + spec['post'] + '\n')
+            if r9:
+                em.insert_before_tok(br[lb], f'\n{r9}_cur = {r9}.advance();\n')
             if spec.get('after'):
                 em.insert_after_tok(br[lb], '\n' + spec['after'] + '\n')
     # ---- closures ----
@@ -471,6 +505,106 @@ def annotate_fn(unit, src, it, fnq, a: A, em: Emitter, canary=None):
                     em.insert_before_tok(r[0], o)
 
 
+# ---- R9: a `for` loop whose body uses `continue` (Verus's own for-loops do not take it) is driven by an explicit iterator stand-in ----
+VITER_PRELUDE = r'''
+// ---- R9: explicit iterator stand-in for `for` loops with `continue` (same ghost vocabulary as Verus's for-loops: index@, seq()) ----
+#[verifier::external_body] #[verifier::reject_recursive_types(T)] pub struct VIterInner<T> { _p: std::marker::PhantomData<T> }
+#[verifier::reject_recursive_types(T)]
+pub struct VIter<T> { pub index: Ghost<int>, pub items: Ghost<Seq<T>>, pub inner: VIterInner<T> }
+impl<T> VIter<T> {
+    pub open spec fn seq(&self) -> Seq<T> { self.items@ }
+    /// `cur` is the element the body is about to see (None: exhausted); index = number of elements already seen
+    pub open spec fn at(&self, cur: Option<T>) -> bool {
+        0 <= self.index@ <= self.items@.len() && cur == (if self.index@ < self.items@.len() { Some(self.items@[self.index@]) } else { None::<T> })
+    }
+    #[verifier::external_body] pub fn first(&mut self) -> (r: Option<T>)
+        requires old(self).index@ == 0
+        ensures final(self).index == old(self).index, final(self).items == old(self).items, final(self).at(r) { unimplemented!() }
+    #[verifier::external_body] pub fn advance(&mut self) -> (r: Option<T>)
+        requires 0 <= old(self).index@ < old(self).items@.len()
+        ensures final(self).index@ == old(self).index@ + 1, final(self).items == old(self).items, final(self).at(r) { unimplemented!() }
+}
+#[verifier::external_body] pub fn viter_vec<T>(v: Vec<T>) -> (r: VIter<T>) ensures r.index@ == 0, r.seq() == v@ { unimplemented!() }
+#[verifier::external_body] pub fn viter_refs<'a, T>(v: &'a Vec<T>) -> (r: VIter<&'a T>)
+    ensures r.index@ == 0, r.seq().len() == v@.len(), forall|j: int| 0 <= j < v@.len() ==> *(#[trigger] r.seq()[j]) == v@[j] { unimplemented!() }
+pub trait VRangeInt: Sized { spec fn as_int(self) -> int; }
+impl VRangeInt for u32 { open spec fn as_int(self) -> int { self as int } }
+impl VRangeInt for usize { open spec fn as_int(self) -> int { self as int } }
+impl VRangeInt for u64 { open spec fn as_int(self) -> int { self as int } }
+impl VRangeInt for i64 { open spec fn as_int(self) -> int { self as int } }
+impl VRangeInt for i32 { open spec fn as_int(self) -> int { self as int } }
+#[verifier::external_body] pub fn viter_range<I: VRangeInt>(r: std::ops::Range<I>) -> (o: VIter<I>)
+    ensures o.index@ == 0, o.seq().len() == (if r.end.as_int() > r.start.as_int() { r.end.as_int() - r.start.as_int() } else { 0 }),
+        forall|j: int| 0 <= j < o.seq().len() ==> (#[trigger] o.seq()[j]).as_int() == r.start.as_int() + j { unimplemented!() }
+'''
+
+
+def _own_continues(toks, br, lb):
+    """indices of the `continue` tokens that belong to the loop whose body opens at lb (not to a nested loop, not inside a closure)"""
+    lo, hi = lb + 1, br[lb]
+    skip = []
+    for (kw, b2) in rscan.find_loops(toks, br, lo, hi):
+        skip.append((b2, br[b2]))
+    for c in rscan.find_closures(toks, br, lo, hi):
+        skip.append(c['body'])
+    out = []
+    for i in range(lo, hi):
+        if toks[i].kind == 'id' and toks[i].text == 'continue' and not any(a <= i < b for (a, b) in skip):
+            if i + 1 < hi and toks[i + 1].kind == 'lt':
+                return None         # labelled continue: not handled
+            out.append(i)
+    return out
+
+
+def _r9_rewrite(unit, src, fnq, toks, br, kw_i, lb, conts, G, em):
+    """R9: `for PAT in EXPR { BODY }` with `continue` in BODY ->
+         let mut G = viter_*(EXPR); let mut G_cur = G.first(); loop <invariants> { let PAT = match G_cur { Some(x) => x, None => break }; BODY'; G_cur = G.advance(); }
+       where BODY' is BODY with every own `continue` replaced by `{ G_cur = G.advance(); continue }`.  Same elements, same order, same exits; the ghost
+       vocabulary of the invariants (G.index@ = number of elements already seen, G.seq()) is the one of Verus's for-loops."""
+    x = kw_i + 1
+    while x < lb and not (toks[x].kind == 'id' and toks[x].text == 'in'):
+        if toks[x].kind == 'p' and toks[x].text in rscan.OPEN:
+            x = br[x]
+        x += 1
+    if x >= lb:
+        return None
+    pat = src.text_of(kw_i + 1, x)
+    e0, e1 = x + 1, lb          # EXPR tokens
+    tail = [t.text for t in toks[max(e0, e1 - 4):e1]]
+    recs = getattr(em, 'extra_rw', None)
+    if recs is None:
+        recs = em.extra_rw = []
+
+    def rw(a, b, new, why):
+        em.replace_toks(a, b, new)
+        recs.append(dict(item=fnq, old=src.text_of(a, b), new=new, count=1, positions=[(a, b)], reason='R9: ' + why))
+    why = 'a `for` loop whose body uses `continue` is driven by an explicit iterator stand-in (Verus for-loops do not take `continue`); same elements, order and exits'
+    if tail[-4:] == ['.', 'iter', '(', ')']:
+        rw(kw_i, x + 1, f'let mut {G} = viter_refs(&', why)
+        rw(e1 - 4, e1, ' ', 'the `.iter()` of the loop header is part of the stand-in constructor')
+    elif tail[-4:] == ['.', 'into_iter', '(', ')']:
+        rw(kw_i, x + 1, f'let mut {G} = viter_vec(', why)
+        rw(e1 - 4, e1, ' ', 'the `.into_iter()` of the loop header is part of the stand-in constructor')
+    else:
+        depth0_range = False
+        k = e0
+        while k < e1 - 1:
+            if toks[k].kind == 'p' and toks[k].text in rscan.OPEN:
+                k = br[k] + 1
+                continue
+            if toks[k].text == '.' and toks[k + 1].text == '.' and toks[k].e == toks[k + 1].s:
+                depth0_range = True
+                break
+            k += 1
+        rw(kw_i, x + 1, f'let mut {G} = {"viter_range" if depth0_range else "viter_vec"}(', why)
+    em.insert_before_tok(lb, f'); let mut {G}_cur = {G}.first(); loop ')
+    em.insert_after_tok(lb, f' let {pat} = match {G}_cur {{ Some(x__) => x__, None => break }}; ')
+    for c in conts:
+        rw(c, c + 1, f'{{ {G}_cur = {G}.advance(); continue }}', 'the iterator is advanced before `continue`, as the loop end does')
+    unit.needs_viter = True
+    return G
+
+
 def _wrap_arm_obj(fnq, pat, o):
     """str -> raw text; (name, condition[, props]) -> `proof { assert(condition); }` as a named obligation"""
     if isinstance(o, tuple):
@@ -549,6 +683,20 @@ class Generated:
 
 
 def generate(unit: Unit, canary=None) -> Generated:
+    g = _generate(unit, canary)
+    if getattr(unit, 'needs_viter', False) and not getattr(unit, '_viter_added', False):
+        # R9 was used: the iterator stand-in is added to the hand-written spec text (after the first raw block) and the unit is generated again
+        unit._viter_added = True
+        k = next(i for i, op in enumerate(unit.ops) if op[0] == 'raw')
+        unit.ops.insert(k + 1, ('raw', VITER_PRELUDE, 'R9 iterator stand-in'))
+        unit.rewrites_applied = []
+        unit.notes = []
+        unit.sig_mismatch = []
+        g = _generate(unit, canary)
+    return g
+
+
+def _generate(unit: Unit, canary=None) -> Generated:
     g = Generated()
     out = []     # list of str | Clause
 
@@ -821,6 +969,7 @@ def _emit_item(unit, g, src, it, iid, label, a, fnq, emit, canary, spec):
                 em.replace_toks(r[2], r[3], new)
                 rw_applied.append(dict(item=label + f' arm `{pat}`', old=None, new=new, reason='ARM BODY DROPPED: ' + reason, count=1, positions=[(r[2], r[3])]))
         annotate_fn(unit, src, it, fnq, a, em, canary)
+        rw_applied += getattr(em, 'extra_rw', [])
     else:
         for at in a.attrs:
             em.insert_before_tok(_vis_start(src.toks, it), at + ' ')
